@@ -31,3 +31,4 @@ import RpylibModel.ProofsGen.SrcC10
 import RpylibModel.ProofsGen.SrcC10Model
 import RpylibModel.ProofsGen.SrcC18
 import RpylibModel.ProofsGen.SrcC19
+import RpylibModel.ProofsGen.SrcC09
